@@ -45,6 +45,17 @@ def run(ctx):
                 c = r['res']; g = split_draws(r['draws'])[2][0]
                 worst = max(worst, abs(g) * 2 * M)
                 dl.append('enc 3 0 0 0 0 %d %s %s %d' % (n, fmt(key), fmt(c), M)); meta.append(('fresh', n, M, mu, key, c, None))
+        # lweSymEncryptWithExternalNoise: the prescribed noise value near the edge of the decryption interval (|noise| = 0.45 / Msize), alpha
+        # as above: the phase is message + noise and nothing else, so the message comes back
+        for M in rng.sample(Ms, 3 if not thorough else len(Ms)):
+            a_units = min(2**40 // (20 * M), 2**35)
+            for mu in sorted({0, M - 1, rng.randrange(M)}):
+                for sgn in (1, -1):
+                    num = sgn * ((45 * 2**40) // (100 * M))
+                    line, r = E.lib(14, [n] + key + [enc(mu, M), num, 40], sd + n * 17 + mu + M % 101, rng.randrange(30), a_units, rng.choice([0, 1, 2, 3, 4]))
+                    ctx.count(('lwe-enc-extnoise', n, M, mu, sgn))
+                    if r is None: ctx.report('lwe-encrypt-crash', 'lweSymEncryptWithExternalNoise n=%d died' % n, {'case': line[:10000]}); continue
+                    dl.append('enc 3 0 0 0 0 %d %s %s %d' % (n, fmt(key), fmt(r['res']), M)); meta.append(('fresh', n, M, mu, key, r['res'], None))
         # harness-built ciphertexts at the decision threshold
         for M in rng.sample(Ms, 3 if not thorough else len(Ms)):
             for mu in sorted({0, M - 1, rng.randrange(M)}):
